@@ -254,28 +254,34 @@ func vfChoiceRun(cfgs []vfNamedCfg, owners ...string) explore.RunFunc {
 // C03: a stalled reader throttles the sender and the transfer resumes afterwards.
 func vfC03(c *hx.Ctx) {
 	c.Rule("core pair; the reader stops after every possible number of delivered segments for {0.3s (< first probe), 0.7s, 5s, 130s (> probe cap)}; " +
-		"every subset of the first N control-only (ACK/WASK/WINS) datagrams emitted after the pause began is lost (N=4 quick, 7 thorough); receive window {1,2,4} against a sender assuming 32; " +
+		"every subset of the first N control-only (ACK/WASK/WINS) datagrams emitted after the pause began is lost (N=6 quick, 9 thorough); receive window {1,2,4} (thorough {1,2,3,4,8}, also in no-delay mode) against a sender assuming 32; " +
 		"nc in {0,1}; both driving modes. Non-trivial = at least one control datagram lost.")
 	hx.NoCache = true
 	c.ByUnit = true
-	n := hx.Pick(c, 4, 7)
+	n := hx.Pick(c, 6, 9)
 	var grid []vfNamedCfg
+	wnds, ndl := []int{1, 2, 4}, [][2]int{{0, 40}}
+	if !c.Quick() {
+		wnds, ndl = []int{1, 2, 3, 4, 8}, [][2]int{{0, 40}, {1, 10}}
+	}
 	for _, mode := range []string{"session", "update"} {
-		for _, w := range []int{1, 2, 4} {
+		for _, w := range wnds {
 			for _, nc := range []int{0, 1} {
-				for _, pauseMs := range []uint32{300, 700, 5000, 130000} {
-					for after := 0; after <= 5; after++ {
-						if c.Quick() && (after+w+int(pauseMs/300))%2 == 1 {
-							continue
-						}
-						cf := vfSimCfg{Mode: mode, Stream: true, SndWnd: [2]int{32, 32}, RcvWnd: [2]int{32, w}, Mtu: 40, NoDelay: [4]int{0, 40, 2, nc},
-							Delay: 10, HorizonMs: pauseMs + 120000 + 200000, PauseAfter: after, PauseMs: pauseMs, CtrlDropN: n}
-						cf.Writes[0] = []int{16, 16, 16, 16, 16, 16, 16, 16}
-						grid = append(grid, vfNamedCfg{fmt.Sprintf("%s/rcv_wnd=%d/nc=%d/pause=%dms after %d segs", mode, w, nc, pauseMs, after), cf})
-						if pauseMs >= 5000 {
-							cf.OutageAfterResumeMs = 1000
-							cf.CtrlDropN = 2
-							grid = append(grid, vfNamedCfg{fmt.Sprintf("%s/rcv_wnd=%d/nc=%d/pause=%dms after %d segs/1s-outage-at-resume", mode, w, nc, pauseMs, after), cf})
+				for _, nd := range ndl {
+					for _, pauseMs := range []uint32{300, 700, 5000, 130000} {
+						for after := 0; after <= 5; after++ {
+							cf := vfSimCfg{Mode: mode, Stream: true, SndWnd: [2]int{32, 32}, RcvWnd: [2]int{32, w}, Mtu: 40, NoDelay: [4]int{nd[0], nd[1], 2, nc},
+								Delay: 10, HorizonMs: pauseMs + 120000 + 200000, PauseAfter: after, PauseMs: pauseMs, CtrlDropN: n}
+							cf.Writes[0] = []int{16, 16, 16, 16, 16, 16, 16, 16}
+							if w == 8 {
+								cf.Writes[0] = append(cf.Writes[0], 16, 16, 16, 16, 16, 16, 16, 16)
+							}
+							grid = append(grid, vfNamedCfg{fmt.Sprintf("%s/rcv_wnd=%d/nc=%d/nodelay=%d/pause=%dms after %d segs", mode, w, nc, nd[0], pauseMs, after), cf})
+							if pauseMs >= 5000 {
+								cf.OutageAfterResumeMs = 1000
+								cf.CtrlDropN = 2
+								grid = append(grid, vfNamedCfg{fmt.Sprintf("%s/rcv_wnd=%d/nc=%d/nodelay=%d/pause=%dms after %d segs/1s-outage-at-resume", mode, w, nc, nd[0], pauseMs, after), cf})
+							}
 						}
 					}
 				}
